@@ -1790,10 +1790,11 @@ def gen_op(rng: random.Random, seen: list) -> dict:
         return {"k": "fun2", "op": "copysign", "t": t, "a": ref(), "b": ref()}
     if kind == "call":
         return {"k": "call", "fn": rng.randrange(0, 3), "args": [ref() for _ in range(4)]}
-    sub = _wchoice(rng, (("alloca", 25), ("gep", 25), ("store", 28), ("load", 22)))
-    if sub == "alloca":
+    sub = _wchoice(rng, (("alloca", 15), ("gep", 25), ("store", 32), ("load", 28)))
+    if sub == "alloca" or "ptr" not in seen:
         t = ty(SCALARS)
-        return {"k": "alloca", "t": t, "n": rng.randrange(0, 3), "arr": int(rng.random() < .3),
+        seen.append("ptr")
+        return {"k": "alloca", "t": t, "n": rng.randrange(0, 3), "arr": int(rng.random() < .15),
                 "c64": int(rng.random() < .3)}
     if sub == "gep":
         return {"k": "gep", "p": ref(), "dyn": int(rng.random() < .5), "i": ref(),
@@ -1811,7 +1812,7 @@ def gen_func(rng: random.Random) -> dict:
     for b in range(nb):
         params = []
         if b and rng.random() < .7:
-            params = [_wchoice(rng, _TYW) if rng.random() < .3 else rng.choice(seen)
+            params = [_wchoice(rng, _TYW) if rng.random() < .3 else rng.choice([x for x in seen if x != "ptr"])
                       for _ in range(rng.randrange(1, 3))]
             seen.extend(params)
         ops = [gen_op(rng, seen) for _ in range(rng.randrange(1, 7))]
@@ -1836,7 +1837,7 @@ def gen_func(rng: random.Random) -> dict:
             t = {"k": "ret", "v": rng.randrange(0, 12)}
         blocks.append({"params": params, "ops": ops, "term": t})
     blocks[-1]["term"] = {"k": "ret", "v": rng.randrange(0, 12)}
-    produced = [t for t in seen[len(args):]]
+    produced = [t for t in seen[len(args):] if t != "ptr"]
     ret = rng.choice(produced) if produced and rng.random() < .85 else _wchoice(rng, _TYW)
     layout = []
     if nb > 2 and rng.random() < .3:
